@@ -204,10 +204,24 @@ func Compare(a Version, b Version) int {
 // dpkg(1), and even returns roughly the same error messages.
 func Parse(input string) (Version, error) {
 	result := Version{}
-	return result, parseInto(&result, input)
+	if err := parseInto(&result, input); err != nil {
+		return Version{}, err
+	}
+	return result, nil
 }
 
+// parseInto replaces *result with the parsed input. On error *result is
+// left untouched.
 func parseInto(result *Version, input string) error {
+	parsed := Version{}
+	if err := parse(&parsed, input); err != nil {
+		return err
+	}
+	*result = parsed
+	return nil
+}
+
+func parse(result *Version, input string) error {
 	trimmed := strings.TrimSpace(input)
 	if trimmed == "" {
 		return fmt.Errorf("version string is empty")
